@@ -214,7 +214,15 @@ def run(ctx: Ctx):
     sc = [s for s in body if isinstance(s, ast.If) and isinstance(s.test, ast.Name) and s.test.id in flags_init]
     ok_sc = False
     no_loop = no_cat = None
-    if len(sc) == 1 and len(sc[0].body) == 1 and isinstance(sc[0].body[0], ast.Return) and isinstance(sc[0].body[0].value, ast.IfExp):
+    if len(sc) == 1 and len(sc[0].body) == 2 and isinstance(sc[0].body[0], ast.If) and isinstance(sc[0].body[1], ast.Return) and \
+            isinstance(sc[0].body[0].test, ast.Name) and len(sc[0].body[0].body) == 1 and isinstance(sc[0].body[0].body[0], ast.Return):
+        inner = sc[0].body[0]
+        no_loop = sc[0].test.id
+        if inner.test.id in flags_init:
+            no_cat = inner.test.id
+            ok_sc = norm(inner.body[0].value) in ("1.0", "1") and norm(sc[0].body[1].value) in ("0.0", "0") and flags_init.get(no_loop) is True and \
+                flags_init.get(no_cat) is True and body.index(sc[0]) > body.index(O)
+    elif len(sc) == 1 and len(sc[0].body) == 1 and isinstance(sc[0].body[0], ast.Return) and isinstance(sc[0].body[0].value, ast.IfExp):
         ie = sc[0].body[0].value
         no_loop = sc[0].test.id
         if isinstance(ie.test, ast.Name) and ie.test.id in flags_init:
